@@ -3,23 +3,22 @@
    stdout: one line per case, the integers returned by Model.dispatch.
    The only glue is the conversion between OCaml ints and the extracted
    binary integers (positive / Z). *)
-open Model
 
-let rec pos_of_int (n : int) : positive =
-  if n = 1 then XH
-  else if n land 1 = 0 then XO (pos_of_int (n lsr 1))
-  else XI (pos_of_int (n lsr 1))
+let rec pos_of_int (n : int) : Model.positive =
+  if n = 1 then Model.XH
+  else if n land 1 = 0 then Model.XO (pos_of_int (n lsr 1))
+  else Model.XI (pos_of_int (n lsr 1))
 
-let z_of_int (n : int) : z =
-  if n = 0 then Z0 else if n > 0 then Zpos (pos_of_int n) else Zneg (pos_of_int (- n))
+let z_of_int (n : int) : Model.z =
+  if n = 0 then Model.Z0 else if n > 0 then Model.Zpos (pos_of_int n) else Model.Zneg (pos_of_int (- n))
 
-let rec int_of_pos (p : positive) : int =
-  match p with XH -> 1 | XO q -> 2 * int_of_pos q | XI q -> 2 * int_of_pos q + 1
+let rec int_of_pos (p : Model.positive) : int =
+  match p with Model.XH -> 1 | Model.XO q -> 2 * int_of_pos q | Model.XI q -> 2 * int_of_pos q + 1
 
 (* integers beyond the native range are printed exactly through strings *)
-let rec string_of_pos (p : positive) : string =
+let rec string_of_pos (p : Model.positive) : string =
   (* fast path *)
-  let rec bits p acc = match p with XH -> acc + 1 | XO q | XI q -> bits q (acc + 1) in
+  let rec bits p acc = match p with Model.XH -> acc + 1 | Model.XO q | Model.XI q -> bits q (acc + 1) in
   if bits p 0 < 62 then string_of_int (int_of_pos p)
   else begin
     (* decimal conversion by repeated doubling on a digit array *)
@@ -29,17 +28,17 @@ let rec string_of_pos (p : positive) : string =
       digits := List.map (fun d -> let v = 2 * d + !carry in carry := v / 10; v mod 10) !digits;
       if !carry > 0 then digits := !digits @ [!carry] in
     let rec msb_first p acc = match p with
-      | XH -> 1 :: acc | XO q -> msb_first q (0 :: acc) | XI q -> msb_first q (1 :: acc) in
+      | Model.XH -> 1 :: acc | Model.XO q -> msb_first q (0 :: acc) | Model.XI q -> msb_first q (1 :: acc) in
     List.iter double_add (msb_first p []);
     String.concat "" (List.rev_map string_of_int !digits)
   end
 
-let string_of_z (x : z) : string =
-  match x with Z0 -> "0" | Zpos p -> string_of_pos p | Zneg p -> "-" ^ string_of_pos p
+let string_of_z (x : Model.z) : string =
+  match x with Model.Z0 -> "0" | Model.Zpos p -> string_of_pos p | Model.Zneg p -> "-" ^ string_of_pos p
 
 (* inputs are native-range integers (the harness keeps generated numbers
    below 2^62); anything else aborts the run rather than being truncated *)
-let z_of_string (s : string) : z = z_of_int (int_of_string s)
+let z_of_string (s : string) : Model.z = z_of_int (int_of_string s)
 
 let () =
   let buf = Buffer.create 65536 in
@@ -50,7 +49,7 @@ let () =
       match parts with
       | [] -> print_newline ()
       | fn :: rest ->
-        let out = dispatch (z_of_string fn) (List.map z_of_string rest) in
+        let out = Model.dispatch (z_of_string fn) (List.map z_of_string rest) in
         Buffer.clear buf;
         List.iter (fun x -> Buffer.add_string buf (string_of_z x); Buffer.add_char buf ' ') out;
         print_string (Buffer.contents buf); print_newline ()
